@@ -334,6 +334,19 @@ def run(ctx):
                 reps.append(op)
         jobs += [("pair", (trio, 1)) for trio in itertools.product(reps, repeat=3)]
     part = core.fan_out(ctx, _dispatch, jobs)
+    # the application has switched logging to DEBUG: the conforming exchange of every request
+    # string must look exactly the same (bytes, reads, result)
+    from ..explore import Chooser                       # pylint: disable=import-outside-toplevel
+    for kind in ("command", "query"):
+        for req in REQUESTS:
+            plain = run_primitive(Chooser([]), kind, req)
+            with core.debug_logging():
+                traced = run_primitive(Chooser([]), kind, req)
+            if traced[:2] != plain[:2]:
+                part.violation(f"debuglog:{kind}:{req.strip()}", f"{kind}({req!r}) with logging "
+                               f"switched to DEBUG: {traced[:2]!r}; otherwise {plain[:2]!r}",
+                               {"kind": "debuglog", "call": kind, "request": req})
+            part.count("debug_logging_runs")
     cnt = part.counters
     execs = cnt.get("executions", 0)
     coverage = {
@@ -376,6 +389,14 @@ def run(ctx):
 
 
 def replay(case):
+    if case.get("kind") == "debuglog":
+        from ..explore import Chooser                   # pylint: disable=import-outside-toplevel
+        plain = run_primitive(Chooser([]), case["call"], case["request"])
+        with core.debug_logging():
+            traced = run_primitive(Chooser([]), case["call"], case["request"])
+        return [] if traced[:2] == plain[:2] else \
+            [f"{case['call']}({case['request']!r}) with logging switched to DEBUG: "
+             f"{traced[:2]!r}; otherwise {plain[:2]!r}"]
     vector = [tuple(v) for v in case["vector"]]
     if case["kind"] == "prim":
         (viols, _o, _s), _c = run_vector(
